@@ -183,6 +183,20 @@ type jsonGenState struct {
 func GenJSONDoc(t *rapid.T, opt DocURLOpt) JSONDoc {
 	st := &jsonGenState{opt: opt}
 	var root JNode
+	if rapid.IntRange(0, 299).Draw(t, "json.huge") == 299 {
+		// a large listing (API page, file index): more than a thousand URLs in one document, as objects in an array
+		n := rapid.IntRange(1001, 2600).Draw(t, "json.hugelen")
+		root = JNode{K: "arr"}
+		st.long = true
+		for i := 0; i < n; i++ {
+			u := genDocURL(t, "json.url", docTok(len(st.planted)), "value", st.opt)
+			st.planted = append(st.planted, u)
+			entry := JNode{K: "obj", Keys: []string{"id", "url"}, Kids: []JNode{{K: "lit", S: strconv.Itoa(i)}, {K: "url", S: u.Text}}}
+			root.Kids = append(root.Kids, entry)
+		}
+		st.depth = 2
+		return JSONDoc{Root: root, Pretty: rapid.IntRange(0, 1).Draw(t, "json.pretty"), Planted: st.planted, Depth: st.depth}
+	}
 	switch rapid.IntRange(0, 9).Draw(t, "json.top") {
 	case 0:
 		root = st.url(t, 0, "value")
